@@ -34,6 +34,40 @@ class Conv:
         return a
 
 
+def subst_leaf(t, name, rep):
+    if isinstance(t, tuple):
+        if t and t[0] == "leaf":
+            return rep if t[1] == name else t
+        return tuple(subst_leaf(x, name, rep) if isinstance(x, tuple) else x for x in t)
+    return t
+
+
+def rounding_mismatch(value, src, to_aff, frm_aff, T):
+    """"Agrees with the plain scalar conversion to within one ulp", decided without running anything: every slot must be
+    the very same sequence of rounded operations as the unit's own kernels applied to the same input slot (then the
+    results are bit-identical), or both computations must be provably within half an ulp of the exact value.  Returns
+    None, or a description of the first slot for which neither can be shown."""
+    from .. import errdom
+    for (path, got), leaf in zip(ev.flatten(value), src):
+        ref = ("leaf", leaf)
+        if to_aff is not None:
+            ref = subst_leaf(to_aff.term, "v", ref)
+        if frm_aff is not None:
+            ref = subst_leaf(frm_aff.term, "v", ref)
+        if got == ref:
+            continue
+        try:
+            ea, _ = errdom.err(got, T)
+            eb, _ = errdom.err(ref, T)
+        except Exception:
+            ea = eb = None
+        if ea is not None and eb is not None and ea <= 1 and eb <= 1:
+            continue
+        return ("slot '%s' computes %s, the plain scalar conversion computes %s: not the same sequence of rounded operations (relative error bounds %s and %s "
+                "unit roundoffs), so the two are not guaranteed to agree to within one ulp" % (path, ev.show(got)[:160], ev.show(ref)[:160], ea, eb))
+    return None
+
+
 def same(a, b):
     return close(a.A, b.A) and close(a.B, b.B)
 
@@ -96,8 +130,11 @@ def run(chk):
                         src = [t[1] for _, t in ev.flatten(E0.symbolic(F.T(f["params"][0]["t"]), "v"))]
                         want = C.to(ut, x)
                         bad = [p for (p, leaf, a), s in zip(got, src) if leaf != s or not same(a, want)]
+                        mm = None if (bad or len(got) != len(src)) else rounding_mismatch(E.load(this_lv), src, want, None, T)
                         if bad or len(got) != len(src):
                             chk.violated("R1", inst, "slot %s is not To_%s of the same input slot (got %s)" % (bad[:1], x, affine.n_show(got[0][2].A)), short(f["loc"]))
+                        elif mm:
+                            chk.violated("R1", inst, mm, short(f["loc"]))
                         else:
                             chk.holds("R1", inst, "every slot = (%s)*v + (%s)" % (affine.n_show(want.A), affine.n_show(want.B)), short(f["loc"]), nontrivial=(x != std))
                     except ev.Inconclusive as e:
@@ -114,7 +151,11 @@ def run(chk):
                         src = [t[1] for _, t in ev.flatten(E.load(this_lv))]
                         want = C.frm(ut, x)
                         bad = [p for (p, leaf, a), s in zip(got, src) if leaf != s or not same(a, want)]
-                        (chk.violated if bad or len(got) != len(src) else chk.holds)("R2", inst, "From_%s per slot" % x if not bad else "slot %s differs from From_%s" % (bad[:1], x), short(f["loc"]))
+                        mm = None if (bad or len(got) != len(src)) else rounding_mismatch(E.rv(res), src, None, want, T)
+                        if mm:
+                            chk.violated("R2", inst, mm, short(f["loc"]))
+                        else:
+                            (chk.violated if bad or len(got) != len(src) else chk.holds)("R2", inst, "From_%s per slot" % x if not bad else "slot %s differs from From_%s" % (bad[:1], x), short(f["loc"]))
                     except ev.Inconclusive as e:
                         chk.inconclusive("R2", inst, str(e), short(f["loc"]))
             # StaticValue<X>, Create<X> (instantiated per enumerator by the driver)
@@ -145,8 +186,11 @@ def run(chk):
                             for p in f["params"]:
                                 src += [t[1] for _, t in ev.flatten(E0.symbolic(F.T(p["t"]), p["n"]))]
                         bad = [p for (p, leaf, a), s in zip(got, src) if leaf != s or not same(a, want)]
+                        mm = None if (bad or len(got) != len(src)) else rounding_mismatch(E.rv(res), src, want if direction == "to" else None, want if direction == "from" else None, T)
                         if bad or len(got) != len(src):
                             chk.violated("R2", inst, "slot %s is not %s_%s of the matching input slot: (%s)*v+(%s)" % (bad[:1], "From" if direction == "from" else "To", x, affine.n_show(got[0][2].A), affine.n_show(got[0][2].B)), short(f["loc"]))
+                        elif mm:
+                            chk.violated("R2", inst, mm, short(f["loc"]))
                         else:
                             chk.holds("R2", inst, "%s_%s per slot" % ("From" if direction == "from" else "To", x), short(f["loc"]), nontrivial=(x != std))
                     except ev.Inconclusive as e:
@@ -232,8 +276,9 @@ SHAPE_ARGS = [("scalar", "%s"), ("array", "std::array<%s, 5>"), ("stdvector", "s
               ("planar", "PhQ::PlanarVector<%s>"), ("vector", "PhQ::Vector<%s>"), ("symdyad", "PhQ::SymmetricDyad<%s>"), ("dyad", "PhQ::Dyad<%s>")]
 
 
-def free_overloads(chk, F, M, C, T):
-    """Convert / ConvertInPlace / ConvertStatically for every container shape and unit type."""
+def free_overloads(chk, F, M, C, T, r3="R3", r4="R4", only_shapes=None):
+    """Convert / ConvertInPlace / ConvertStatically for every container shape and unit type (rule ids r3/r4; only_shapes
+    restricts to some parameter shapes: C01 re-uses this for the plain-number entry points)."""
     groups = {}
     for qn in ("PhQ::ConvertInPlace", "PhQ::Convert", "PhQ::ConvertStatically"):
         for f in F.by_qname.get(qn, []):
@@ -241,10 +286,18 @@ def free_overloads(chk, F, M, C, T):
                 continue
             ut = f["targs"][0]
             if ut not in F.enums:
-                continue
+                # an additional overload written for one unit type (its unit type is in the parameter list, not a
+                # template parameter): an entry point like any other
+                pts_ = [strip_cvref(t) for t in F.param_types(f)]
+                cand = [t for t in pts_[1:] if t in F.enums]
+                if qn == "PhQ::ConvertStatically" or not cand:
+                    continue
+                ut = cand[0]
+                f = dict(f, _all_pairs=True)      # written for this unit type: it may single out any pair of units
             pt = strip_cvref(F.T(f["params"][0]["t"]))
-            if T not in pt:
-                continue
+            mnum = re.search(r"\b(long double|double|float)\b", pt)
+            if not mnum or mnum.group(1) != T:
+                continue      # (an instantiation for another numeric type requested by a mixed-precision member: analysed with that type's facts)
             groups.setdefault((qn, ut), []).append(f)
     n = 0
     seen_shapes = {}
@@ -259,9 +312,13 @@ def free_overloads(chk, F, M, C, T):
             pt = strip_cvref(F.T(f["params"][0]["t"]))
             shape = re.sub(r"<.*", "", pt).replace("PhQ::", "").replace("std::", "std") if pt not in ("float", "double", "long double") else "scalar"
             seen_shapes.setdefault(qn, set()).add(shape)
+            if only_shapes is not None and shape not in only_shapes:
+                continue
             if qn == "PhQ::ConvertStatically":
                 x, y = f["targs"][1].split("::")[-1], f["targs"][2].split("::")[-1]
                 todo = [(x, y)]
+            elif f.get("_all_pairs"):
+                todo = [(a_, b_) for a_ in units for b_ in units]
             else:
                 todo = pairs
             for x, y in todo:
@@ -280,7 +337,7 @@ def free_overloads(chk, F, M, C, T):
                         out = E.rv(res)
                         after = E.load(args[0]) if isinstance(args[0], ev.LV) else args[0]
                         if after != orig:
-                            chk.violated("R3", inst, "the copying form modifies its argument", short(f["loc"]))
+                            chk.violated(r3, inst, "the copying form modifies its argument", short(f["loc"]))
                             continue
                     got = slot_affines(out, T)
                     want = affine.compose(C.frm(ut, y), C.to(ut, x))
@@ -290,16 +347,22 @@ def free_overloads(chk, F, M, C, T):
                         want = C.to(ut, x) if x != std else IDENT
                     bad = [p for (p, leaf, a), s in zip(got, src) if leaf != s or not same(a, want)]
                     if bad or len(got) != len(src):
-                        chk.violated("R3", inst, "slot %s: got (%s)*v+(%s), expected From_%s o To_%s = (%s)*v+(%s)" % (
+                        chk.violated(r3, inst, "slot %s: got (%s)*v+(%s), expected From_%s o To_%s = (%s)*v+(%s)" % (
                             bad[:1], affine.n_show(got[0][2].A), affine.n_show(got[0][2].B), y, x, affine.n_show(want.A), affine.n_show(want.B)), short(f["loc"]))
                     elif x == y and not same(want, IDENT):
-                        chk.violated("R4", inst, "converting a unit to itself is not the identity map", short(f["loc"]))
+                        chk.violated(r4, inst, "converting a unit to itself is not the identity map", short(f["loc"]))
+                    elif rounding_mismatch(out, src, C.to(ut, x), C.frm(ut, y), T):
+                        chk.violated(r3, inst, rounding_mismatch(out, src, C.to(ut, x), C.frm(ut, y), T), short(f["loc"]))
                     else:
-                        chk.holds("R4" if x == y else "R3", inst, "%d slot(s): From_%s o To_%s" % (len(got), y, x), short(f["loc"]))
+                        chk.holds(r4 if x == y else r3, inst, "%d slot(s): From_%s o To_%s" % (len(got), y, x), short(f["loc"]))
                 except ev.Inconclusive as e:
-                    chk.inconclusive("R3", inst, str(e), short(f["loc"]))
+                    chk.inconclusive(r3, inst, str(e), short(f["loc"]))
     for qn, want_n in (("PhQ::ConvertInPlace", 7), ("PhQ::Convert", 7), ("PhQ::ConvertStatically", 6)):
+        if only_shapes is not None:
+            want_n = len(only_shapes)
+            seen_shapes[qn] = seen_shapes.get(qn, set()) & set(only_shapes)
         if len(seen_shapes.get(qn, ())) < want_n:
-            chk.inconclusive("R3", "%s<%s> overload set" % (qn, T), "only shapes %s found (expected %d container forms)" % (sorted(seen_shapes.get(qn, ())), want_n), "PhQ/Unit.hpp")
+            chk.inconclusive(r3, "%s<%s> overload set" % (qn, T), "only shapes %s found (expected %d container forms)" % (sorted(seen_shapes.get(qn, ())), want_n), "PhQ/Unit.hpp")
     chk.coverage.setdefault("free_overload_instances", 0)
     chk.coverage["free_overload_instances"] += n
+    return n
